@@ -71,7 +71,8 @@ def _worker(job):
                                                              % (second.get('status'), second.get('paths', 0), second.get('wall_s', 0))]
         res['bounded'] = c.bounded
         try:
-            res['fuzz'] = fuzz.fuzz_contract(c, fuzz_n, seed)
+            # contracts whose native evaluation is slow by nature (scrypt) declare a divisor for the number of evaluations
+            res['fuzz'] = fuzz.fuzz_contract(c, max(1, fuzz_n // max(1, int(c.__dict__.get('fuzz_divisor', 1)))), seed)
         except Exception as e:
             res['fuzz'] = {'error': '%s: %s' % (type(e).__name__, e), 'runs': 0, 'failures': []}
         res['wall_s'] = time.time() - t0
